@@ -84,6 +84,7 @@ PROPS = {
         "runs": [
             {"name": "protect", "run": "TestWriteProtection", "kind": "rapid", "checks": {Q: 24000, T: 1920000}, "shards": {Q: 4, T: 16}},
             {"name": "sweep", "run": "TestSweep", "kind": "plain", "shards": {Q: 4, T: 16}, "env": {"VERIF_SWEEP_LEN": {Q: 3, T: 4}}},
+            {"name": "besidelocal", "run": "TestWriteVsLocalUpdate", "kind": "plain", "shards": {Q: 2, T: 8}, "env": {"VERIF_ROUNDS": {Q: 1500, T: 40000}}},
         ],
     },
     "C11": {
@@ -435,7 +436,7 @@ _RULE_ADDENDA_6 = {
     "C01": " Operation changeBetweenReads: a peer reads a list function, the application changes it (SetData, or UpdateData with a filter of any shape), a peer reads again - every reply carries the data held at that moment. In half of the cases the peers announce two client features of one type in one entity.",
     "C02": " Delete selectors may be present but empty (they select every item).",
     "C03": " Entity removal: one notification announces one to three entities of a peer as removed (partial entries in any order, mixed with an added entry for a known entity, or a full notification that omits them), writers on every removed entity are probed afterwards; a binding delete request of the holder counts as deletion whatever device parts it omits and however it is answered.",
-    "C04": " Delete selectors may name non-identifier elements, part of the identifier or nothing (several addressed elements); delete elements may name a sub element (value.scale) - P4 does not compare the new content of an element then.",
+    "C04": " Run besidelocal: an accepted partial write of one element leaves a rendezvous together with a local partial update of another element of the same list; afterwards both values are there. Delete selectors may name non-identifier elements, part of the identifier or nothing (several addressed elements); delete elements may name a sub element (value.scale) - P4 does not compare the new content of an element then.",
     "C05": " Template discovery-read-filtered: a detailed-discovery read with a partial filter carrying entity / feature / device selectors and elements.",
     "C07": " In a third of the histories a connection without SHIP writer (every send fails) subscribed to node management before everybody else.",
     "C08": " Failing local updates also come as a filter on a function of the feature's own type that takes no restricted updates. Delete requests of announced peers may name a foreign device in the client address: they address no entry of the sender.",
